@@ -227,7 +227,7 @@ class MultiLevelTransform(CompositeTransform):
             u = torch.zeros_like(x)
             for i, transform in enumerate(self.transforms()):
                 y = transform.forward(x, grid=grid and i == 0)
-                u += y - x
+                u = u + (y - x)
             y = x + u
         return y
 
